@@ -174,8 +174,14 @@ def run(ctx):
         for bid in dec:
             t = B.blocks[bid].term
             org = du.origins(t.discr, stop_at_calls=False)
-            has_gt = any(o[0] == 'op' and o[1] == 'Gt' for o in org)
             has_len = any(o[0] == 'call' and o[1].endswith('::len') for o in org)
+            # `len > limit` or, flipped, `limit < len`: the length is the greater side
+            has_gt = False
+            for (cb, ci, op, a, bb, st) in ctx.cmp_stmts(B):
+                if op not in ('Gt', 'Lt') or ('op', op, cb) not in org:
+                    continue
+                big = a if op == 'Gt' else bb
+                has_gt |= any(o[0] == 'call' and o[1].endswith('::len') for o in du.origins(big, stop_at_calls=False))
             true_tgts = [tg for cv, tg in t.cases if cv == 'otherwise' or (isinstance(cv, int) and cv != 0)]
             to_pop = any(pop[0][0] in cfg.reachable_from([tg]) for tg in true_tgts)
             false_tgts = [tg for cv, tg in t.cases if cv == 0]
@@ -193,11 +199,20 @@ def run(ctx):
 
     # r4 once per peer
     Fh = ctx.body('PendingTxs::fetch_transaction_hashes_for_broadcast')
-    cl = [x for x in P.closures_of(Fh) if P.call_sites(x, lambda k, t: k.startswith('HashSet') and k.endswith('::insert'))]
-    ctx.floor('C18.r4', 'filter_map closure with peers.insert', len(cl), 1)
-    x = ctx.fn(cl[0])
-    somes = [s for s in ctx.success_sinks(x)]
-    ctx.guard('C18.r4', x, lambda k, t: k.startswith('HashSet') and k.endswith('::insert'), 'true', somes, gname='peers.insert(peer_id)')
+    is_ins = lambda k, t: k.startswith('HashSet') and k.endswith('::insert')
+    cl = [x for x in P.closures_of(Fh) if P.call_sites(x, is_ins)]
+    own = P.call_sites(Fh, is_ins)
+    ctx.floor('C18.r4', 'peers.insert in fetch_transaction_hashes_for_broadcast (adaptor closure or loop)', len(cl) + len(own), 1)
+    if cl:
+        # adaptor form: the closure yields `Some(hash)` only on `insert == true`
+        x = ctx.fn(cl[0])
+        somes = [s for s in ctx.success_sinks(x)]
+        ctx.guard('C18.r4', x, is_ins, 'true', somes, gname='peers.insert(peer_id)')
+    else:
+        # loop form: a hash is pushed to the result only on `insert == true`
+        pushes = [(bid, t.span, 'Vec::push (hash emitted for broadcast)') for bid, t in P.call_sites(Fh, lambda k, t: k.endswith('Vec::push') or k.endswith('::push'))]
+        ctx.floor('C18.r4', 'hashes pushed in fetch_transaction_hashes_for_broadcast', len(pushes), 1)
+        ctx.guard('C18.r4', Fh, is_ins, 'true', pushes, gname='peers.insert(peer_id)')
     nb = 0
     for b in P.bodies:
         for bid, k, t in P.call_keys(b):
